@@ -147,6 +147,37 @@ theorem sixframes_counter : ∃ code ∈ newCodes,
     newSixframes newDna code.2.1 ['A', 'T', 'G', 'A', 'A', 'A', 'T', 'A'] ≠
       GCSpec.sixframes code.2.1 ['A', 'T', 'G', 'A', 'A', 'A', 'T', 'A'] := by decide +kernel
 
+/-! ## Added by the audit: the minus frames of the new `sixframes` are right *as a multiset* -/
+
+/-- the three minus-strand translations of the new `sixframes` are the three correct minus-strand frames, as a multiset -/
+theorem sixframes_same_translations (code : Nat × List Char × List Char) (hc : code ∈ newCodes)
+    (s : List Char) (hs : Canon s) (h2 : 2 ≤ s.length) :
+    ((newSixframes newDna code.2.1 s).map (·.2.2)).Perm ((GCSpec.sixframes code.2.1 s).map (·.2.2)) := by
+  rw [sixframes_spec_partial code hc s hs]
+  simp only [GCSpec.sixframes, List.flatMap_cons, List.flatMap_nil, List.map_cons, List.map_nil,
+    List.append_nil, List.cons_append, List.nil_append]
+  have h3 : s.length % 3 = 0 ∨ s.length % 3 = 1 ∨ s.length % 3 = 2 := by omega
+  rcases h3 with h | h | h
+  · have e0 : (s.length - 0) % 3 = 0 := by omega
+    have e1 : (s.length - 1) % 3 = 2 := by omega
+    have e2 : (s.length - 2) % 3 = 1 := by omega
+    rw [e0, e1, e2]
+    exact List.Perm.cons _ (List.Perm.cons _ (List.Perm.cons _ (List.Perm.cons _ (List.Perm.swap _ _ _))))
+  · have e0 : (s.length - 0) % 3 = 1 := by omega
+    have e1 : (s.length - 1) % 3 = 0 := by omega
+    have e2 : (s.length - 2) % 3 = 2 := by omega
+    rw [e0, e1, e2]
+    exact List.Perm.cons _ (List.Perm.cons _ (List.Perm.cons _ (List.Perm.swap _ _ _)))
+  · have e0 : (s.length - 0) % 3 = 2 := by omega
+    have e1 : (s.length - 1) % 3 = 1 := by omega
+    have e2 : (s.length - 2) % 3 = 0 := by omega
+    rw [e0, e1, e2]
+    refine List.Perm.cons _ (List.Perm.cons _ (List.Perm.cons _ ?_))
+    exact (List.Perm.swap _ _ _).trans ((List.Perm.cons _ (List.Perm.swap _ _ _)).trans (List.Perm.swap _ _ _))
+
+-- the witness of `sixframes_counter` (length 8): the labelled lists differ, the translations are a permutation
+example : Canon ['A', 'T', 'G', 'A', 'A', 'A', 'T', 'A'] ∧ 2 ≤ ['A', 'T', 'G', 'A', 'A', 'A', 'T', 'A'].length := by decide
+
 /-- Old `sixframes` is the specification's six frames for every canonical sequence of length ≥ 3
 (shorter non-empty sequences raise `ValueError` in `translate`). -/
 theorem old_sixframes_spec (code : Nat × List Char × List Char) (hc : code ∈ oldCodes)
